@@ -1555,8 +1555,12 @@ MANIFEST_ENTRY = {
              'the contraction equals the weighted sum; np.tensordot itself is trusted). (6) lstsq: lstsq_recovers (unique minimiser of the '
              'masked cost = synthesising coefficients when the modes are independent on the finite samples), lstsq_ignores_invalid, and '
              'the bridge normal_equations_minimise (any vector satisfying the normal equations on the kept samples minimises the masked '
-             'cost); the executable oracle lstsqNormal is NOT proved to solve them - instead every reply of the driver is re-checked '
-             'exactly (rational arithmetic) against the normal equations at run time, and the harness refuses a reply without that flag. '
+             'cost), its converse minimiser_iff_normal_equations, normal_equations_unique (independent modes: at most one solution for '
+             'ANY data), normal_equations_recover (every solution of the normal equations IS the synthesising vector) and '
+             'lstsq_exists_unique (independent modes: the Gram matrix is invertible, exactly one minimiser for ANY data); '
+             'the executable oracle lstsqNormal is NOT proved to solve them - instead every reply of the driver is re-checked '
+             'exactly (rational arithmetic) against the normal equations at run time, and the harness refuses a reply without that flag '
+             '(by normal_equations_recover a flagged reply is the synthesising vector). '
              'TRANSLATED from the current source each run and proved equal to the model (gen_* theorems): recurrence_abc (both branches '
              'and the branch test), the sweep step / which coefficient order feeds a,b vs c / read-write indices / loop bounds / seeds / '
              'one-term guards of jacobi_sum_clenshaw, change_basis_Qbfs_to_Pn, clenshaw_qbfs, change_of_basis_Q2d_to_Pnm, clenshaw_q2d; '
@@ -1572,7 +1576,10 @@ MANIFEST_ENTRY = {
              'they are called through the aliasing / coordinate-form items only. EXECUTED INPUT FORMS: list / tuple / ndarray (int64, '
              'float32, float64) coefficients evaluated twice on the same objects; float64 / float32 / int / 0-d / 2-D / 3-D / strided '
              'coordinates and Python / NumPy scalars; signed m; modes of dtype f64 / f32 / i64 / bool / c128 with weights f64 / f32 / i64 / '
-             'c128 / list, mismatched lengths must raise; lstsq with C / F / transposed / strided / reversed layouts of data and modes, 1-D '
+             'c128 / list, mismatched lengths must raise; one-hot 2D-Q content (every position of every length 1..7, cosine-only and '
+             'sine-only separately, every m = 1..6) before the random content; lstsq on ill-conditioned sub-aperture designs (15..36 '
+             'Zernikes, measured cond 1e4..1e9, coefficients recovered to 1e3 cond eps: a normal-equations solve fails it); '
+             'lstsq with C / F / transposed / strided / reversed layouts of data and modes, 1-D '
              'data, modes as list, one-row and one-column grids, +-inf and NaN masks, poisoned modes at masked samples; every sequence '
              'argument (s, cs, cns, coefs, cm0, ams, bms and their inner lists, nms and its rows, coefs of the packer, modes of '
              'sum_of_2d_modes and lstsq; weights as list / tuple / ndarray only, as documented) as list / tuple / ndarray / generator / '
